@@ -53,7 +53,7 @@ LEVEL_NOTE = ("What stays covered after the exclusions: renames of files and of 
               "symlinks at top level only), deletions of directories with "
               "content, stable ignore patterns, --full when nothing has to be "
               "deleted, --overwrite backwards.")
-REGISTERED = False
+REGISTERED = True
 NONTRIVIAL_FLOOR = {"quick": 100, "thorough": 3000}
 
 R = tm.ROOT_ID
@@ -365,8 +365,10 @@ def _draw_candidate(draw, model, ids, fresh_dirs):
                                "add_dir"])
         if op is None:
             return []
-        if op[0] == "rename" and op[2] in fresh_dirs:
-            return []   # harness domain: the inventory still holds a file there
+        if op[0] in ("add", "rename") and op[2] in fresh_dirs:
+            # harness domain: until the kind change is committed the inventory
+            # holds a file there; children arrive in a later commit
+            return []
         return [op]
     if how == "symlink":
         parent = draw(st.sampled_from(tm.dirs(model)))
